@@ -281,11 +281,8 @@ theorem kind_direct {t : Table} (hwf : WF t) : ∀ (d c : Nat) (tvs : List Nat),
           have : (basesOf t c).any BaseRef.isAlias = true := any_alias_of_generic (tvs := tvs') (by simp [hg])
           simp [ownOrigBases, this]
       · simp at h
-    · split at h
-      · split at h
-        · split at h <;> simp at h
-        · simp at h
-      · simp at h
+    · repeat' split at h
+      all_goals simp at h
     · split at h
       · rename_i b hb
         rcases ih b tvs h with ⟨hnd, bs, hgb, hl⟩
@@ -356,11 +353,8 @@ theorem kind_nonGeneric {t : Table} : ∀ (d c : Nat), kindOf t d c = .nonGeneri
     simp only [kindOf] at h
     split at h
     · split at h <;> simp at h
-    · split at h
-      · split at h
-        · split at h <;> simp at h
-        · simp at h
-      · simp at h
+    · repeat' split at h
+      all_goals simp at h
     · rename_i hg hp
       have hpl := all_plain hg hp
       split at h
@@ -494,27 +488,47 @@ theorem usesMixin_derives {t : Table} : ∀ (d c : Nat), usesMixin t d c = true 
         | param p a => exact ⟨p, param_mem_parentsOfBases _ hb, ih p hu d'' (by omega)⟩
         | plain p => exact ⟨p, plain_mem_parentsOfBases _ hb, ih p hu d'' (by omega)⟩
 
-theorem passedOver_foreign {t : Table} (hwf : WF t) {d p : Nat} (h : foreign t d p = true) (d' : Nat) :
-    originPassedOver t d' p = true := by
-  have := foreign_not_derives hwf d p h d'
-  simp [originPassedOver, loopOriginMustDeriveFrom, libClassId, mixinId] at this ⊢
-  exact this
+/-! ### which bases the loop runs over -/
 
-theorem not_passedOver_mixin {t : Table} {d p : Nat} (h : usesMixin t d p = true) (d' : Nat) (hd : d ≤ d') :
-    originPassedOver t d' p = false := by
-  have := usesMixin_derives d p h d' hd
-  simp [originPassedOver, loopOriginMustDeriveFrom, libClassId, mixinId] at this ⊢
-  exact this
+theorem subscripted_plain (q : Nat) (r : List BaseRef) : subscriptedBases (.plain q :: r) = subscriptedBases r := rfl
 
-/-- **the loop selects the GenericMixin base, wherever it stands**: among bases without `Generic[…]`, with exactly one subscripted
-    base `B[args]` that is a GenericMixin class (whose declarations show `Generic[g]`) and every other subscripted base foreign to
-    GenericMixin, the loop answers `(g, args)` — the foreign bases before it are passed over, the ones after it are never reached -/
-theorem loop_select {t : Table} (hwf : WF t) {d0 b : Nat} {args g : List TArg} {bs' : List BaseRef} (d' : Nat) (hd : d0 ≤ d')
-    (hl : lookupOrigBases t d' b = some bs') (hgb : genericBases bs' = [g]) :
+theorem subscripted_param (o : Nat) (a : List TArg) (r : List BaseRef) :
+    subscriptedBases (.param o a :: r) = .param o a :: subscriptedBases r := rfl
+
+theorem mixinBases_plain (t : Table) (d : Nat) (n : String) (q : Nat) (r : List BaseRef) :
+    mixinBases t d n (.plain q :: r) = mixinBases t d n r := by
+  simp [mixinBases, subscripted_plain]
+
+theorem mixinBases_param (t : Table) (d : Nat) (n : String) (o : Nat) (a : List TArg) (r : List BaseRef) :
+    mixinBases t d n (.param o a :: r) =
+      if derives t (libClassId n) d o then .param o a :: mixinBases t d n r else mixinBases t d n r := by
+  simp [mixinBases, subscripted_param, List.filter_cons, BaseRef.origin]
+
+/-- no subscripted base is a GenericMixin class: `mixin_bases` is empty -/
+theorem mixinBases_none {t : Table} (hwf : WF t) (d0 d' : Nat) : ∀ (bs : List BaseRef), bs.filterMap genericOf = [] →
+    ((bs.filterMap paramOf).all fun q => foreign t d0 q.1) = true → mixinBases t d' "GenericMixin" bs = [] := by
+  intro bs
+  induction bs with
+  | nil => intro _ _; rfl
+  | cons x r ih =>
+    intro hg hall
+    cases x with
+    | generic tvs => simp [genericOf] at hg
+    | plain q =>
+      rw [mixinBases_plain]
+      exact ih (by simpa [genericOf, List.filterMap_cons] using hg) (by simpa [paramOf, List.filterMap_cons] using hall)
+    | param o a =>
+      simp only [paramOf, List.filterMap_cons, List.all_cons, Bool.and_eq_true] at hall
+      have hnd : derives t (libClassId "GenericMixin") d' o = false := foreign_not_derives hwf d0 o hall.1 d'
+      rw [mixinBases_param, hnd]
+      exact ih (by simpa [genericOf, List.filterMap_cons] using hg) hall.2
+
+/-- exactly one subscripted base is a GenericMixin class and the others are foreign to it: `mixin_bases` is that one base -/
+theorem mixinBases_select {t : Table} (hwf : WF t) {d0 b : Nat} {args : List TArg} (d' : Nat) (hd : d0 ≤ d') :
     ∀ (bs : List BaseRef), bs.filterMap genericOf = [] →
       ((bs.filterMap paramOf).filter fun q => usesMixin t d0 q.1) = [(b, args)] →
       ((bs.filterMap paramOf).all fun q => usesMixin t d0 q.1 || foreign t d0 q.1) = true →
-      loopBases t d' bs = .found g args := by
+      mixinBases t d' "GenericMixin" bs = [.param b args] := by
   intro bs
   induction bs with
   | nil => intro _ hp; simp at hp
@@ -523,23 +537,67 @@ theorem loop_select {t : Table} (hwf : WF t) {d0 b : Nat} {args g : List TArg} {
     cases x with
     | generic tvs => simp [genericOf] at hg
     | plain q =>
-      simp only [loopBases]
-      apply ih
-      · simpa [genericOf, List.filterMap_cons] using hg
-      · simpa [paramOf, List.filterMap_cons] using hsel
-      · simpa [paramOf, List.filterMap_cons] using hall
+      rw [mixinBases_plain]
+      exact ih (by simpa [genericOf, List.filterMap_cons] using hg) (by simpa [paramOf, List.filterMap_cons] using hsel)
+        (by simpa [paramOf, List.filterMap_cons] using hall)
     | param o a =>
+      have hg' : r.filterMap genericOf = [] := by simpa [genericOf, List.filterMap_cons] using hg
       simp only [paramOf, List.filterMap_cons, List.all_cons, Bool.and_eq_true] at hall
       simp only [paramOf, List.filterMap_cons, List.filter_cons] at hsel
+      rw [mixinBases_param]
       by_cases hu : usesMixin t d0 o = true
       · simp only [hu, ↓reduceIte, List.cons.injEq, Prod.mk.injEq] at hsel
-        obtain ⟨⟨rfl, rfl⟩, _⟩ := hsel
-        simp [loopBases, not_passedOver_mixin hu d' hd, hl, getGenericBase, hgb, pickIdx, genericBaseIndex]
+        obtain ⟨⟨rfl, rfl⟩, hrest⟩ := hsel
+        have hder : derives t (libClassId "GenericMixin") d' o = true := usesMixin_derives d0 o hu d' hd
+        have hfor : ((r.filterMap paramOf).all fun q => foreign t d0 q.1) = true := by
+          rw [List.all_eq_true]
+          intro q hq
+          have h1 := (List.all_eq_true.mp hall.2) q hq
+          have h2 : usesMixin t d0 q.1 = false := by
+            have : q ∉ (r.filterMap paramOf).filter fun q => usesMixin t d0 q.1 := by rw [hrest]; simp
+            simpa [List.mem_filter, hq] using this
+          simpa [h2] using h1
+        rw [hder, mixinBases_none hwf d0 d' r hg' hfor]; rfl
       · have hu' : usesMixin t d0 o = false := by simpa using hu
         have hf : foreign t d0 o = true := by simpa [hu'] using hall.1
+        have hnd : derives t (libClassId "GenericMixin") d' o = false := foreign_not_derives hwf d0 o hf d'
         simp only [hu', Bool.false_eq_true, ↓reduceIte] at hsel
-        simp only [loopBases, passedOver_foreign hwf hf d', ↓reduceIte]
-        exact ih (by simpa [genericOf, List.filterMap_cons] using hg) hsel hall.2
+        rw [hnd]
+        exact ih hg' hsel hall.2
+
+/-- **mixin bases win over foreign ones**: as soon as one subscripted base is a GenericMixin class, the loop runs over the subscripted
+    GenericMixin bases only — whatever other subscripted bases there are, generic or not, before or after them (commit 2c5b09b;
+    without the preference the loop runs over all subscripted bases and this fails) -/
+theorem mixin_bases_win (t : Table) (d : Nat) (bs : List BaseRef) (h : mixinBases t d "GenericMixin" bs ≠ []) :
+    loopCandidates t d bs = mixinBases t d "GenericMixin" bs ∧
+    ∀ b ∈ loopCandidates t d bs, derives t mixinId d b.origin = true := by
+  have h1 : loopCandidates t d bs = mixinBases t d "GenericMixin" bs := by
+    simp [loopCandidates, loopPrefersOriginsDerivedFrom, loopFallsBackToAll, h]
+  refine ⟨h1, ?_⟩
+  intro b hb
+  rw [h1] at hb
+  simpa [mixinBases, libClassId, mixinId] using (List.mem_filter.mp hb).2
+
+/-- … and only when NO subscripted base is a GenericMixin class does it run over all of them (commit 148d517: `mixin_bases or
+    subscripted_bases`; with `mixin_bases` alone the loop would find nothing) -/
+theorem no_mixin_base_all_subscripted (t : Table) (d : Nat) (bs : List BaseRef) (h : mixinBases t d "GenericMixin" bs = []) :
+    loopCandidates t d bs = subscriptedBases bs := by
+  simp [loopCandidates, loopPrefersOriginsDerivedFrom, loopFallsBackToAll, h]
+
+/-- **the loop selects the GenericMixin base, wherever it stands**: among bases without `Generic[…]`, with exactly one subscripted
+    base `B[args]` that is a GenericMixin class (whose declarations show `Generic[g]`) and every other subscripted base foreign to
+    GenericMixin, the loop answers `(g, args)` — the foreign bases are not even looked at -/
+theorem loop_select {t : Table} (hwf : WF t) {d0 b : Nat} {args g : List TArg} {bs' : List BaseRef} (d' : Nat) (hd : d0 ≤ d')
+    (hl : lookupOrigBases t d' b = some bs') (hgb : genericBases bs' = [g]) :
+    ∀ (bs : List BaseRef), bs.filterMap genericOf = [] →
+      ((bs.filterMap paramOf).filter fun q => usesMixin t d0 q.1) = [(b, args)] →
+      ((bs.filterMap paramOf).all fun q => usesMixin t d0 q.1 || foreign t d0 q.1) = true →
+      loopCandidates t d' bs = [.param b args] ∧ loopBases t d' (loopCandidates t d' bs) = .found g args := by
+  intro bs hg hsel hall
+  have hm := mixinBases_select hwf d' hd bs hg hsel hall
+  have hc : loopCandidates t d' bs = [.param b args] := by
+    rw [(mixin_bases_win t d' bs (by rw [hm]; simp)).1, hm]
+  exact ⟨hc, by simp [hc, loopBases, hl, getGenericBase, hgb, pickIdx, genericBaseIndex]⟩
 
 /-- **order independence**: the answer of the loop does not depend on where the subscripted bases that are foreign to GenericMixin
     (and the plain mixins) stand — any permutation of such a list of bases is answered alike -/
@@ -548,8 +606,9 @@ theorem loop_order_independent {t : Table} (hwf : WF t) {d0 b : Nat} {args g : L
     (hg : bs₁.filterMap genericOf = [])
     (hsel : ((bs₁.filterMap paramOf).filter fun q => usesMixin t d0 q.1) = [(b, args)])
     (hall : ((bs₁.filterMap paramOf).all fun q => usesMixin t d0 q.1 || foreign t d0 q.1) = true) :
-    loopBases t d' bs₂ = loopBases t d' bs₁ ∧ loopBases t d' bs₁ = .found g args := by
-  have h1 := loop_select hwf d' hd hl hgb bs₁ hg hsel hall
+    loopBases t d' (loopCandidates t d' bs₂) = loopBases t d' (loopCandidates t d' bs₁) ∧
+    loopBases t d' (loopCandidates t d' bs₁) = .found g args := by
+  have h1 := (loop_select hwf d' hd hl hgb bs₁ hg hsel hall).2
   have hg2 : bs₂.filterMap genericOf = [] := by
     have := (hperm.filterMap genericOf); rw [hg] at this; exact List.perm_nil.mp this.symm
   have hp := hperm.filterMap paramOf
@@ -559,13 +618,48 @@ theorem loop_order_independent {t : Table} (hwf : WF t) {d0 b : Nat} {args g : L
   have hall2 : ((bs₂.filterMap paramOf).all fun q => usesMixin t d0 q.1 || foreign t d0 q.1) = true := by
     rw [List.all_eq_true] at hall ⊢
     intro q hq; exact hall q (hp.mem_iff.mpr hq)
-  exact ⟨(loop_select hwf d' hd hl hgb bs₂ hg2 hsel2 hall2).trans h1.symm, h1⟩
+  exact ⟨(loop_select hwf d' hd hl hgb bs₂ hg2 hsel2 hall2).2.trans h1.symm, h1⟩
+
+theorem lookup_nonGeneric {t : Table} {d0 o : Nat} (h : nonGeneric t d0 o = true) (d' : Nat) : lookupOrigBases t d' o = none := by
+  simp only [lookupOrigBases]
+  apply List.findSome?_eq_none_iff.mpr
+  intro x hx
+  exact nonGeneric_lookup d0 o h d' x hx
+
+/-- **no GenericMixin base: the one subscripted base with a generic-class origin is selected**, wherever it stands — subscripted bases
+    whose origin has no `__orig_bases__` (`Sequence[int]`, `list[int]`) are passed over instead of ending in AttributeError -/
+theorem loop_foreign_select {t : Table} {d0 b : Nat} {args g : List TArg} {bs' : List BaseRef} (d' : Nat)
+    (hl : lookupOrigBases t d' b = some bs') (hgb : genericBases bs' = [g]) :
+    ∀ (bs : List BaseRef), bs.filterMap genericOf = [] →
+      ((bs.filterMap paramOf).filter fun q => !nonGeneric t d0 q.1) = [(b, args)] →
+      loopBases t d' (subscriptedBases bs) = .found g args := by
+  intro bs
+  induction bs with
+  | nil => intro _ hp; simp at hp
+  | cons x r ih =>
+    intro hg hsel
+    cases x with
+    | generic tvs => simp [genericOf] at hg
+    | plain q =>
+      rw [subscripted_plain]
+      exact ih (by simpa [genericOf, List.filterMap_cons] using hg) (by simpa [paramOf, List.filterMap_cons] using hsel)
+    | param o a =>
+      simp only [paramOf, List.filterMap_cons, List.filter_cons] at hsel
+      rw [subscripted_param]
+      by_cases hn : nonGeneric t d0 o = true
+      · simp only [hn, Bool.not_true, Bool.false_eq_true, ↓reduceIte] at hsel
+        simp only [loopBases, loopSkipsOriginsWithoutOrigBases, lookup_nonGeneric hn d', Option.isNone_none, Bool.and_self, ↓reduceIte]
+        exact ih (by simpa [genericOf, List.filterMap_cons] using hg) hsel
+      · have hn' : nonGeneric t d0 o = false := by simpa using hn
+        simp only [hn', Bool.not_false, ↓reduceIte, List.cons.injEq, Prod.mk.injEq] at hsel
+        obtain ⟨⟨rfl, rfl⟩, _⟩ := hsel
+        simp [loopBases, hl, getGenericBase, hgb, pickIdx, genericBaseIndex]
 
 /-- a class of kind `bound` finds bases without `Generic[…]`, and the loop over them stops at `B[args]` -/
 theorem kind_bound {t : Table} (hwf : WF t) : ∀ (d c : Nat) (m : List (TArg × TArg)), kindOf t d c = .bound m →
     ∃ bs tvs args, m = pairUp tvs args ∧ tvs.Nodup ∧ genericBases bs = [] ∧
       (∀ d', d ≤ d' → lookupOrigBases t d' c = some bs) ∧
-      (∀ d', d ≤ d' → loopBases t d' bs = .found (tvs.map TArg.tv) args) := by
+      (∀ d', d ≤ d' → loopBases t d' (loopCandidates t d' bs) = .found (tvs.map TArg.tv) args) := by
   intro d
   induction d with
   | zero => intro c m h; simp [kindOf] at h
@@ -575,8 +669,14 @@ theorem kind_bound {t : Table} (hwf : WF t) : ∀ (d c : Nat) (m : List (TArg ×
     split at h
     · split at h <;> simp at h
     · rename_i p ps' hg hp
+      have hown : ∀ d', lookupOrigBases t d' c = some (basesOf t c) := by
+        intro d'
+        apply lookup_own
+        have : (basesOf t c).any BaseRef.isAlias = true := any_alias_of_param (p := p) (by simp [hp])
+        simp [ownOrigBases, this]
       split at h
-      · rename_i b args hsel
+      · -- exactly one subscripted GenericMixin base
+        rename_i b args hsel
         split at h
         · rename_i tvs hk
           split at h
@@ -584,13 +684,29 @@ theorem kind_bound {t : Table} (hwf : WF t) : ∀ (d c : Nat) (m : List (TArg ×
             injection h with h; subst h
             simp only [Bool.and_eq_true, decide_eq_true_eq] at hc
             rcases kind_direct hwf d b tvs hk with ⟨hnd, bs', hgb, hl⟩
-            refine ⟨basesOf t c, tvs, args, rfl, hnd, by simp [genericBases_eq, hg], ?_, ?_⟩
-            · intro d' _
-              apply lookup_own
-              have : (basesOf t c).any BaseRef.isAlias = true := any_alias_of_param (p := p) (by simp [hp])
-              simp [ownOrigBases, this]
-            · intro d' hd'
-              exact loop_select (d0 := d) hwf d' (by omega) (hl d' (by omega)) hgb _ hg (by rw [hp]; exact hsel) (by rw [hp]; exact hc.1.1.2)
+            refine ⟨basesOf t c, tvs, args, rfl, hnd, by simp [genericBases_eq, hg], fun d' _ => hown d', ?_⟩
+            intro d' hd'
+            exact (loop_select (d0 := d) hwf d' (by omega) (hl d' (by omega)) hgb _ hg (by rw [hp]; exact hsel)
+              (by rw [hp]; exact hc.1.1.2)).2
+          · simp at h
+        · simp at h
+      · -- no subscripted GenericMixin base: the one subscripted base with a generic-class origin
+        rename_i hsel0
+        split at h
+        · rename_i b args hsel
+          split at h
+          · rename_i tvs hk
+            split at h
+            · rename_i hc
+              injection h with h; subst h
+              simp only [Bool.and_eq_true, decide_eq_true_eq] at hc
+              rcases kind_direct hwf d b tvs hk with ⟨hnd, bs', hgb, hl⟩
+              refine ⟨basesOf t c, tvs, args, rfl, hnd, by simp [genericBases_eq, hg], fun d' _ => hown d', ?_⟩
+              intro d' hd'
+              have hm := mixinBases_none hwf d d' (basesOf t c) hg (by rw [hp]; exact hc.1.1.2)
+              rw [no_mixin_base_all_subscripted t d' _ hm]
+              exact loop_foreign_select (d0 := d) d' (hl d' (by omega)) hgb _ hg (by rw [hp]; exact hsel)
+            · simp at h
           · simp at h
         · simp at h
       · simp at h
@@ -803,6 +919,32 @@ theorem binding_subclass_foreign_bases_any_position {t : Table} (hwf : WF t) (d 
   | cons p ps' =>
     rw [hps] at hsel hfor
     simp only [expectedOutcome, kindOf, hg, hps, hsel, hb, hpl, hfor, hlen, hty, Bool.and_self, decide_true, ↓reduceIte]
+
+/-- **a class that binds all parameters of an ordinary generic class and adds GenericMixin itself** — `class IntL(Labelled[int],
+    GenericMixin)`, `class IntL2(GenericMixin, Labelled[int])`, `class X(Sequence[int], Labelled[int], GenericMixin)` — stated on the
+    declarations themselves: the class lists no `Generic[…]`; none of its subscripted bases is a GenericMixin class; GenericMixin is
+    among its plain bases (directly or through a plain non-generic class), at any position; exactly one subscripted base, `B[X1..Xn]`,
+    has an origin in whose ancestry something is subscripted — and `B` is a generic class (declares `Generic[T1..Tn]`, or is a plain
+    subclass of such a class) with all parameters bound to types; every other subscripted base (`Sequence[int]`, `list[int]`, any
+    number, before or after `B[…]`) has nothing subscripted in its ancestry.  Then `type_vars` is exactly `{Ti: Xi}` of `B[…]`.
+    As above, the hypotheses do not see the order of the bases. -/
+theorem binding_of_foreign_generic_base {t : Table} (hwf : WF t) (d c b : Nat) (tvs : List Nat)
+    (args : List TArg) (orig : Option (List TArg))
+    (hb : kindOf t d b = .direct tvs)
+    (hg : (basesOf t c).filterMap genericOf = [])
+    (hnomix : ((basesOf t c).filterMap paramOf).filter (fun q => usesMixin t d q.1) = [])
+    (hsel : ((basesOf t c).filterMap paramOf).filter (fun q => !nonGeneric t d q.1) = [(b, args)])
+    (hfor : ((basesOf t c).filterMap paramOf).all (fun q => foreign t d q.1) = true)
+    (hpl : ((basesOf t c).filterMap plainOf).all (nonGeneric t d) = true)
+    (hmix : ((basesOf t c).filterMap plainOf).any (usesMixin t d) = true)
+    (hlen : args.length = tvs.length) (hty : args.all TArg.isTy = true) :
+    getTypes t (d + 1) c orig = .ok (pairUp tvs args) := by
+  apply type_vars_exact hwf
+  cases hps : (basesOf t c).filterMap paramOf with
+  | nil => rw [hps] at hsel; simp at hsel
+  | cons p ps' =>
+    rw [hps] at hsel hfor hnomix
+    simp only [expectedOutcome, kindOf, hg, hps, hnomix, hsel, hb, hpl, hmix, hfor, hlen, hty, Bool.and_self, decide_true, ↓reduceIte]
 
 /-- the same with `B[…]` as the only subscripted base: `class IntBox(Box[int])`, plain non-generic mixins around it -/
 theorem binding_subclass_of_direct_with_parametrised_mixins {t : Table} (hwf : WF t) (d c b : Nat) (tvs : List Nat)
@@ -1586,12 +1728,14 @@ theorem mixins_source_shape :
     (nsOf libTable 1).map (·.1) = [⟨0, "type_var"⟩, ⟨0, "type_vars"⟩, ⟨1, "get_types"⟩, ⟨0, "class_name"⟩] ∧
     (nsOf libTable 3).map (·.1) = [⟨0, "get_decorated_functions"⟩] := by decide
 
-/-- the loop passes over subscripted bases whose origin is no GenericMixin class (commit 2c5b09b; `none` without the test — then
-    `loop_select` / `kind_bound` fail), and the helpers keep nothing between two queries: no decorator (`functools.lru_cache`, …)
-    on `_get_types` and on `get_generic_base` — which receives the INSTANCE, so a cache there would be keyed by `__hash__` / `__eq__`
-    of user objects — and only `property` on `type_var` / `type_vars` (module-level state is refused by the translator) -/
+/-- the loop prefers the subscripted bases whose origin is a GenericMixin class (commit 2c5b09b), looks at all subscripted bases when
+    there is none and passes over origins without `__orig_bases__` (commit 148d517) — `mixin_bases_win`, `no_mixin_base_all_subscripted`,
+    `loop_foreign_select`, `kind_bound` fail without them; and the helpers keep nothing between two queries: no decorator
+    (`functools.lru_cache`, …) on `_get_types` and on `get_generic_base` — which receives the INSTANCE, so a cache there would be keyed by
+    `__hash__` / `__eq__` of user objects — and only `property` on `type_var` / `type_vars` (module-level state is refused by the
+    translator) -/
 theorem helpers_keep_nothing :
-    loopOriginMustDeriveFrom = some "GenericMixin" ∧
+    loopPrefersOriginsDerivedFrom = some "GenericMixin" ∧ loopFallsBackToAll = true ∧ loopSkipsOriginsWithoutOrigBases = true ∧
     getTypesDecorators = [] ∧ getGenericBaseDecorators = [] ∧
     typeVarDecorators = ["property"] ∧ typeVarsDecorators = ["property"] := by decide
 
@@ -1730,12 +1874,16 @@ example : getTypes exBox 12 11 none = .ok [(.tv 1, .ty 0)] :=
   binding_subclass_foreign_bases_any_position (WF_of_wfB (by decide)) 11 11 6 [1] [.ty 0] none (by decide) (by decide) (by decide)
     (by decide) (by decide) rfl (by decide)
 example : (basesOf exBox 10).Perm (basesOf exBox 11) := by decide
-example : loopBases exBox 12 (basesOf exBox 10) = loopBases exBox 12 (basesOf exBox 11) := by decide
+example : loopBases exBox 12 (loopCandidates exBox 12 (basesOf exBox 10)) = loopBases exBox 12 (loopCandidates exBox 12 (basesOf exBox 11)) := by
+  decide
+example : loopCandidates exBox 12 (basesOf exBox 10) = [.param 6 [.ty 0]] := by decide
 
 /-- `class Seq` stands for a subscriptable class without `__orig_bases__` (`list`, `collections.abc.Sequence`):
     `class SeqBox(Seq[X0], Box[X0])`, `class BoxSeq(Box[X0], Seq[X0])`, `class Three(Labelled[X1], Box[X0], Seq[X3])`;
-    outside the claimed shapes: `class IntL(Labelled[X0], GenericMixin)` (binds a generic class that is no GenericMixin class) and
-    `class Two(Box[X0], Box2[X1])` (two subscripted GenericMixin bases) -/
+    GenericMixin added by the class itself: `class IntL(Labelled[X0], GenericMixin)`, `class IntL2(GenericMixin, Labelled[X0])`,
+    `class X(Seq[X0], Labelled[X0], GenericMixin)`;
+    outside the claimed shapes: `class Two(Box[X0], Box2[X1])` (two subscripted GenericMixin bases) and
+    `class Both(Labelled[X0], Other[X1], GenericMixin)` (two subscripted generic-class bases, none a GenericMixin class) -/
 def exSeq : Table := libTable ++ [
   ⟨[.generic [4]], []⟩,                                                       -- 4: Labelled
   ⟨[], []⟩,                                                                   -- 5: Seq
@@ -1745,20 +1893,35 @@ def exSeq : Table := libTable ++ [
   ⟨[.param 4 [.ty 1], .param 6 [.ty 0], .param 5 [.ty 3]], []⟩,               -- 9: Three
   ⟨[.param 4 [.ty 0], .plain 1], []⟩,                                         -- 10: IntL
   ⟨[.plain 1, .generic [2]], []⟩,                                             -- 11: Box2
-  ⟨[.param 6 [.ty 0], .param 11 [.ty 1]], []⟩ ]                               -- 12: Two
+  ⟨[.param 6 [.ty 0], .param 11 [.ty 1]], []⟩,                                -- 12: Two
+  ⟨[.plain 1, .param 4 [.ty 0]], []⟩,                                         -- 13: IntL2
+  ⟨[.param 5 [.ty 0], .param 4 [.ty 0], .plain 1], []⟩,                       -- 14: X
+  ⟨[.generic [3]], []⟩,                                                       -- 15: Other
+  ⟨[.param 4 [.ty 0], .param 15 [.ty 1], .plain 1], []⟩ ]                     -- 16: Both
 
 example : wfB exSeq = true := by decide
-example : expectedOutcome exSeq 13 7 none = .ok [(.tv 1, .ty 0)] ∧ expectedOutcome exSeq 13 8 none = .ok [(.tv 1, .ty 0)] ∧
-    expectedOutcome exSeq 13 9 none = .ok [(.tv 1, .ty 0)] := by decide
-example : getTypes exSeq 13 7 none = .ok [(.tv 1, .ty 0)] ∧ getTypes exSeq 13 9 none = .ok [(.tv 1, .ty 0)] := by decide
+example : expectedOutcome exSeq 18 7 none = .ok [(.tv 1, .ty 0)] ∧ expectedOutcome exSeq 18 8 none = .ok [(.tv 1, .ty 0)] ∧
+    expectedOutcome exSeq 18 9 none = .ok [(.tv 1, .ty 0)] := by decide
+example : getTypes exSeq 18 7 none = .ok [(.tv 1, .ty 0)] ∧ getTypes exSeq 18 9 none = .ok [(.tv 1, .ty 0)] := by decide
+-- GenericMixin added by the class itself (lost its answer between commits 2c5b09b and 148d517)
+example : expectedOutcome exSeq 18 10 none = .ok [(.tv 4, .ty 0)] ∧ expectedOutcome exSeq 18 13 none = .ok [(.tv 4, .ty 0)] ∧
+    expectedOutcome exSeq 18 14 none = .ok [(.tv 4, .ty 0)] := by decide
+example : getTypes exSeq 18 10 none = .ok [(.tv 4, .ty 0)] :=
+  binding_of_foreign_generic_base (WF_of_wfB (by decide)) 17 10 4 [4] [.ty 0] none (by decide) (by decide) (by decide) (by decide)
+    (by decide) (by decide) (by decide) rfl (by decide)
+example : getTypes exSeq 18 14 none = .ok [(.tv 4, .ty 0)] :=
+  binding_of_foreign_generic_base (WF_of_wfB (by decide)) 17 14 4 [4] [.ty 0] none (by decide) (by decide) (by decide) (by decide)
+    (by decide) (by decide) (by decide) rfl (by decide)
+example : mixinBases exSeq 18 "GenericMixin" (basesOf exSeq 9) = [.param 6 [.ty 0]] ∧
+    mixinBases exSeq 18 "GenericMixin" (basesOf exSeq 14) = [] ∧
+    loopCandidates exSeq 18 (basesOf exSeq 14) = [.param 5 [.ty 0], .param 4 [.ty 0]] := by decide
 
-/-- outside the claimed shapes (reported only).  A class that binds the parameter of a generic class which is NOT a GenericMixin
-    class and adds the mixin itself — `class IntL(Labelled[X0], GenericMixin)` — finds no base to take the arguments from
-    (AttributeError on `None`; before commit 2c5b09b it answered `{T4: X0}`); with two subscripted GenericMixin bases —
-    `class Two(Box[X0], Box2[X1])` — the first one is reported -/
+/-- outside the claimed shapes (reported only): with two subscripted GenericMixin bases — `class Two(Box[X0], Box2[X1])` — and with
+    two subscripted generic-class bases none of which is a GenericMixin class — `class Both(Labelled[X0], Other[X1], GenericMixin)` —
+    the first one is reported -/
 theorem outside_the_claimed_binding_shapes :
-    expectedOutcome exSeq 13 10 none = .unsupported ∧ getTypes exSeq 13 10 none = .raised .noneArgs "AttributeError" ∧
-    expectedOutcome exSeq 13 12 none = .unsupported ∧ getTypes exSeq 13 12 none = .ok [(.tv 1, .ty 0)] := by decide
+    expectedOutcome exSeq 18 12 none = .unsupported ∧ getTypes exSeq 18 12 none = .ok [(.tv 1, .ty 0)] ∧
+    expectedOutcome exSeq 18 16 none = .unsupported ∧ getTypes exSeq 18 16 none = .ok [(.tv 4, .ty 0)] := by decide
 
 def exD : Table := libTable ++ [
   ⟨[.param 3 [.ty 50]],                                   -- 4: class Base(WithDecoratedMethods[D])
